@@ -122,6 +122,24 @@ where
     total
 }
 
+/// Labels for two-call histories on LONG labels: a 72-byte prefix of one UTF-8 width (72 x 1,
+/// 36 x 2, 24 x 3, 18 x 4 bytes), a core of one or two symbols, optionally an ASCII tail.
+/// Returns (label, index of the first core character, number of core characters).
+pub fn long_history_labels() -> Vec<(String, usize, usize)> {
+    let hs4: Vec<char> = [0x6Cu32, 0xB7, 0xE9, ZWJ, VIRAMA, 0x65E5, 0x5D0, 0x5F3].iter().map(|c| char::from_u32(*c).unwrap()).collect();
+    let cores: Vec<String> = all_strings(&hs4, 2);
+    let prefixes: Vec<String> = [('a', 72usize), ('\u{E9}', 36), ('\u{65E5}', 24), ('\u{10400}', 18)].iter().map(|(c, n)| std::iter::repeat(*c).take(*n).collect()).collect();
+    let mut long: Vec<(String, usize, usize)> = Vec::new();
+    for p in &prefixes {
+        for c in &cores {
+            for tail in ["", "aaaaaaa"] {
+                long.push((format!("{}{}{}", p, c, tail), p.chars().count(), c.chars().count()));
+            }
+        }
+    }
+    long
+}
+
 fn positions(len: usize) -> Vec<usize> {
     let mut p: Vec<usize> = (0..=len + 1).collect();
     p.push(usize::MAX - 1);
@@ -487,17 +505,7 @@ pub fn run(env: &Env, run: &Run) -> (Stats, Coverage) {
     // calls (keyed by address and length, used only for labels long enough to be worth it) is
     // stale in characters or in bytes for one of the two orders of every pair of widths.
     {
-        let hs4: Vec<char> = [0x6Cu32, 0xB7, 0xE9, ZWJ, VIRAMA, 0x65E5, 0x5D0, 0x5F3].iter().map(|c| char::from_u32(*c).unwrap()).collect();
-        let cores: Vec<String> = all_strings(&hs4, 2);
-        let prefixes: Vec<String> = [('a', 72usize), ('\u{E9}', 36), ('\u{65E5}', 24), ('\u{10400}', 18)].iter().map(|(c, n)| std::iter::repeat(*c).take(*n).collect()).collect();
-        let mut long: Vec<(String, usize, usize)> = Vec::new(); // label, first core position, core length
-        for p in &prefixes {
-            for c in &cores {
-                for tail in ["", "aaaaaaa"] {
-                    long.push((format!("{}{}{}", p, c, tail), p.chars().count(), c.chars().count()));
-                }
-            }
-        }
+        let long = long_history_labels();
         let mut by_len: std::collections::BTreeMap<usize, Vec<&(String, usize, usize)>> = std::collections::BTreeMap::new();
         for x in &long {
             by_len.entry(x.0.len()).or_default().push(x);
